@@ -2,6 +2,8 @@
 
 package client
 
+import "strings"
+
 // C02 (a): no byte string makes ParseLine or the accessors panic.
 func VerifC02Parse() {
 	n := vLen("n", 0, vParam("L", 6))
@@ -12,6 +14,12 @@ func VerifC02Parse() {
 		_ = l.Text()
 		_ = l.Target()
 		_ = l.Public()
+		vObserve("cmd", l.Cmd)
+		vObserve("src", l.Nick+"!"+l.Ident+"@"+l.Host)
+		vObserve("args", strings.Join(l.Args, "\x00"))
+		vObserve("target", l.Target())
+	} else {
+		vObserve("nil", "")
 	}
 	vReach("end")
 }
